@@ -38,6 +38,42 @@ Float gv_d0;     /* ghost: diagonal element of row gv_k0 as the scaling pass rea
 #define CVP_EXCL_NOT_NAN(x)
 #endif
 
+/* ---- proof text of ONE PASS of the row loop of CovMat::cholDec, shared by the block CovMat_cholDec_row (BX = *B__p)
+   and by the monolithic function (BX = B).  Variables of the code: N, W, row, Tol, p, k, l, n, pivot, q. --------------- */
+/* at the start of a pass: the layout facts of this row, and a snapshot of the pivot of row gv_k0 accepted earlier */
+#define CVP_ROW_ENTRY(BX)                                                                                  \
+  CVP_USE_STEP(N, W, row);                                                                                 \
+  if (1 <= gv_k0 && gv_k0 <= row) CVP_USE_MONO(N, W, gv_k0, row);                                          \
+  const Float gv_v0 = (1 <= gv_k0 && gv_k0 < row) ? REP(self)[TAB(gv_k0)] : 0;                             \
+  CVP_EXCL_NOT_NAN(*(BX));
+/* what the inner loops keep: the earlier pivot and this row's pivot stay where they are */
+#define CVP_ROW_KEEPS                                                                                      \
+  (((1 <= gv_k0 && gv_k0 < row) ==> MV_SAMEVAL(REP(self)[TAB(gv_k0)], gv_v0)) && MV_SAMEVAL(REP(self)[TAB(row)], pivot))
+/* for (n=1; n<=k; n++): p + n is the diagonal element of row+n */
+#define CVP_ROW_LOOP1(BX)                                                                                  \
+  __CPROVER_assigns(n, l, q, p, __CPROVER_object_whole(REP(self)))                                         \
+  __CPROVER_loop_invariant(1 <= n && n <= k + 1 && SAME(p, REP(self)) &&                                   \
+                           OFF(p) + FSZ * n == OFF(REP(self)) + FSZ * TAB(row + n) && OFF(p) >= OFF(BX) + FSZ * k && \
+                           CVP_ROW_KEEPS)                                                                  \
+  __CPROVER_decreases((long)k + 1 - n)
+#define CVP_ROW_HEAD1(BX)                                                                                  \
+  GV_ANCHOR(p, REP(self) + (TAB(row + n) - n));                                                            \
+  CVP_USE_STEP(N, W, row + n);
+/* for (l=n; l<=k; l++) p[l] -= q*B[l] */
+#define CVP_ROW_LOOP2(BX)                                                                                  \
+  __CPROVER_assigns(l, __CPROVER_object_whole(REP(self)))                                                  \
+  __CPROVER_loop_invariant(n <= l && l <= k + 1 && CVP_ROW_KEEPS)                                          \
+  __CPROVER_decreases((long)k + 1 - l)
+/* for (; k; k--) *B++ /= pivot   (gv_kk = k before the loop) */
+#define CVP_ROW_LOOP3(BX)                                                                                  \
+  __CPROVER_assigns(k, BX, __CPROVER_object_whole(REP(self)))                                              \
+  __CPROVER_loop_invariant(0 <= k && k <= gv_kk && SAME(BX, REP(self)) &&                                  \
+                           OFF(BX) == OFF(REP(self)) + FSZ * (TAB(row) + 1 + gv_kk - k) && CVP_ROW_KEEPS)  \
+  __CPROVER_decreases(k)
+#define CVP_ROW_HEAD3(BX) GV_ANCHOR(BX, REP(self) + (TAB(row) + 1 + gv_kk - k));
+#define CVP_ROW_EXIT(BX)                                                                                   \
+  __CPROVER_assert(pivot > Tol, "an accepted pivot is greater than the tolerance (a NaN is not)");
+
 /* CovMat(d,b): 0 <= b < d <= 2^15 (or the empty matrix), the stored fields are consistent, and the buffer holds
    off(d+1) elements -- the documented count d(b+1) - b(b+1)/2 (cvp_lemma_size) */
 #define CVP_WF_COV(A)                                                                                          \
@@ -92,7 +128,19 @@ MV_CONTRACT_MemRep_begin
            means (C10: a matrix that is not positive definite is rejected; C15: the factorisation exists).
            E3 + E4: NonPositiveDefinite <=> some pivot met is not greater than the tolerance.
        E5  the tolerance is derived from a scale gv_q that is >= 0 and >= every diagonal element of the input.
-   (c) decreases clauses on the five loops.                                                                        */
+   (c) decreases clauses on the five loops.
+
+   OUTLINING.  dfcc (CBMC 6.11) instruments every loop twice (base case + step), so the body of the innermost of the
+   three nested loops is instrumented 8 times; the monolithic check does not finish (900 s, 19 GB).  The proof is
+   therefore split at the row loop, without editing any executable text:
+     * CovMat_cholDec_row is the BODY OF THE ROW LOOP, extracted from /repo as a block (unit.json header
+       "for (row=1; row<=N; row++)"; the loop's working variables p, k, l, n, pivot, q become its locals, B is passed by
+       reference), with its own contract (check covmat_cholDec_row: the three inner loops);
+     * in check covmat_cholDec (-DCVP_OUTLINE) the same text inside CovMat_cholDec is cut out by the preprocessor
+       between the injection points `rowbody_begin` / `rowbody_end` (pinned by the extractor to the first statement of
+       the row loop's body and to its closing brace) and replaced by ONE CALL of CovMat_cholDec_row, which dfcc replaces
+       by the contract proved in the other check.  R11: `if (gv_exc) return;` follows the call.
+     Without -DCVP_OUTLINE the generated file is the monolithic function with the same loop contracts.           */
 //@ contract CovMat_cholDec
 __CPROVER_requires(CVP_WF_COV(self))
 __CPROVER_requires(gv_exc == 0)
@@ -121,6 +169,7 @@ if (row == gv_k0) gv_d0 = B[n];
 //@ pre CovMat_cholDec 2
 gv_tol = Tol;
 gv_q = q;
+__CPROVER_assert(Tol >= 0, "the tolerance is a number >= 0");
 //@ loop CovMat_cholDec 2
 __CPROVER_assigns(row, B, p, k, n, l, q, pivot, gv_exc, gv_wrow, __CPROVER_object_whole(REP(self)))
 __CPROVER_loop_invariant(1 <= row && row <= N + 1 && SAME(B, REP(self)) && OFF(B) == OFF(REP(self)) + FSZ * TAB(row) &&
@@ -128,39 +177,73 @@ __CPROVER_loop_invariant(1 <= row && row <= N + 1 && SAME(B, REP(self)) && OFF(B
 __CPROVER_decreases((long)N + 1 - row)
 //@ head CovMat_cholDec 2
 GV_ANCHOR(B, REP(self) + TAB(row));
-CVP_USE_STEP(N, W, row);
-if (1 <= gv_k0 && gv_k0 <= row) CVP_USE_MONO(N, W, gv_k0, row);
 gv_wrow = row;
-CVP_EXCL_NOT_NAN(*B);
-//@ tail CovMat_cholDec 2
-__CPROVER_assert(pivot > Tol, "an accepted pivot is greater than the tolerance (a NaN is not)");
+#ifndef CVP_OUTLINE
+CVP_ROW_ENTRY(B)
+#endif
+//@ at CovMat_cholDec rowbody_begin
+#ifdef CVP_OUTLINE
+CovMat_cholDec_row(self, &B, N, W, row, Tol);
+if (gv_exc) return;
+#else
+//@ at CovMat_cholDec rowbody_end
+#endif
 //@ loop CovMat_cholDec 3
-__CPROVER_assigns(n, l, q, p, __CPROVER_object_whole(REP(self)))
-__CPROVER_loop_invariant(1 <= n && n <= k + 1 && SAME(p, REP(self)) &&
-                         OFF(p) + FSZ * n == OFF(REP(self)) + FSZ * TAB(row + n) && OFF(p) >= OFF(B) + FSZ * k &&
-                         ((1 <= gv_k0 && gv_k0 < row) ==> REP(self)[TAB(gv_k0)] > Tol) &&
-                         MV_SAMEVAL(REP(self)[TAB(row)], pivot))
-__CPROVER_decreases((long)k + 1 - n)
+CVP_ROW_LOOP1(B)
 //@ head CovMat_cholDec 3
-GV_ANCHOR(p, REP(self) + (TAB(row + n) - n));
-CVP_USE_STEP(N, W, row + n);
+CVP_ROW_HEAD1(B)
 //@ loop CovMat_cholDec 4
-__CPROVER_assigns(l, __CPROVER_object_whole(REP(self)))
-__CPROVER_loop_invariant(n <= l && l <= k + 1 &&
-                         ((1 <= gv_k0 && gv_k0 < row) ==> REP(self)[TAB(gv_k0)] > Tol) &&
-                         MV_SAMEVAL(REP(self)[TAB(row)], pivot))
-__CPROVER_decreases((long)k + 1 - l)
+CVP_ROW_LOOP2(B)
 //@ pre CovMat_cholDec 5
 const Index gv_kk = k;
 //@ loop CovMat_cholDec 5
-__CPROVER_assigns(k, B, __CPROVER_object_whole(REP(self)))
-__CPROVER_loop_invariant(0 <= k && k <= gv_kk && SAME(B, REP(self)) &&
-                         OFF(B) == OFF(REP(self)) + FSZ * ((long)TAB(row) + 1 + gv_kk - k) &&
-                         ((1 <= gv_k0 && gv_k0 < row) ==> REP(self)[TAB(gv_k0)] > Tol) &&
-                         MV_SAMEVAL(REP(self)[TAB(row)], pivot))
-__CPROVER_decreases(k)
+CVP_ROW_LOOP3(B)
 //@ head CovMat_cholDec 5
-GV_ANCHOR(B, REP(self) + (TAB(row) + 1 + gv_kk - k));
+CVP_ROW_HEAD3(B)
+//@ post CovMat_cholDec 5
+CVP_ROW_EXIT(B)
+//@ end
+
+/* ------------------------------------------------------------------------------------------------------------------
+   CovMat_cholDec_row: one pass of the row loop of CovMat::cholDec (block extraction, see OUTLINING above).
+   On entry B points to the diagonal element of `row`.  Either the pivot is refused (NonPositiveDefinite, nothing
+   written) or rows row .. row+k are updated and B points to the diagonal element of row+1.
+     R1  only NonPositiveDefinite can be raised, and it is raised  <=>  the pivot is <= Tol;
+     R2  normal return ==> the pivot left in the diagonal position is > Tol  (a number greater than the tolerance);
+     R3  normal return ==> B has advanced to row+1;
+     R4  the diagonal positions of rows <= row are not written (ghost index gv_k0), so pivots accepted earlier stay.   */
+//@ contract CovMat_cholDec_row
+__CPROVER_requires(CVP_WF_COV(self) && N == self->base.row_ && W == self->band_ && 1 <= row && row <= N)
+__CPROVER_requires(gv_exc == 0 && Tol == Tol)
+__CPROVER_requires(__CPROVER_rw_ok(B__p, sizeof(Float *)) && !SAME(B__p, self) && !SAME(B__p, REP(self)))
+__CPROVER_requires(SAME(*B__p, REP(self)) && OFF(*B__p) == OFF(REP(self)) + FSZ * TAB(row))
+__CPROVER_assigns(gv_exc, *B__p, __CPROVER_object_whole(REP(self)))
+__CPROVER_ensures(gv_exc == 0 || gv_exc == GV_NonPositiveDefinite)
+__CPROVER_ensures((gv_exc == GV_NonPositiveDefinite) == (__CPROVER_old(REP(self)[TAB(row)]) <= Tol))
+__CPROVER_ensures(gv_exc == GV_NonPositiveDefinite ==> MV_SAMEVAL(REP(self)[TAB(row)], __CPROVER_old(REP(self)[TAB(row)])))
+__CPROVER_ensures(gv_exc == 0 ==> REP(self)[TAB(row)] > Tol)
+__CPROVER_ensures(gv_exc == 0 ==> (SAME(*B__p, REP(self)) && OFF(*B__p) == OFF(REP(self)) + FSZ * TAB(row + 1)))
+__CPROVER_ensures((1 <= gv_k0 && gv_k0 < row) ==> MV_SAMEVAL(REP(self)[TAB(gv_k0)], __CPROVER_old(REP(self)[TAB(gv_k0)])))
+//@ entry CovMat_cholDec_row
+GV_CANARY("CovMat_cholDec_row entry");
+Float *p;                 /* the row loop's working variables (declared at the top of cholDec; each is assigned before */
+Index k, l, n;            /* it is read in a pass -- were one not, its value here is arbitrary and the proof covers it) */
+Float pivot, q;
+CVP_ROW_ENTRY((*B__p))
+//@ loop CovMat_cholDec_row 1
+CVP_ROW_LOOP1((*B__p))
+//@ head CovMat_cholDec_row 1
+CVP_ROW_HEAD1((*B__p))
+//@ loop CovMat_cholDec_row 2
+CVP_ROW_LOOP2((*B__p))
+//@ pre CovMat_cholDec_row 3
+const Index gv_kk = k;
+//@ loop CovMat_cholDec_row 3
+CVP_ROW_LOOP3((*B__p))
+//@ head CovMat_cholDec_row 3
+CVP_ROW_HEAD3((*B__p))
+//@ post CovMat_cholDec_row 3
+CVP_ROW_EXIT((*B__p))
 //@ end
 
 //@ harness
@@ -174,5 +257,21 @@ void h_covmat_cholDec(void)
   Index w_dim = A.base.row_, w_band = A.band_;           /* witness variables for the replay */
   CovMat_cholDec(&A);
   GV_CANARY("h_covmat_cholDec end");
+}
+
+void h_covmat_cholDec_row(void)
+{
+  struct CovMat A;
+  mk_cov(&A);
+  Index row, k0;
+  Float Tol;
+  __CPROVER_assume(1 <= row && row <= A.base.row_ && Tol == Tol);
+  gv_k0 = k0;
+  gv_exc = 0;
+  Float *B = REP(&A) + TAB(row);
+  Index w_dim = A.base.row_, w_band = A.band_, w_row = row;
+  Float w_tol = Tol;
+  CovMat_cholDec_row(&A, &B, A.base.row_, A.band_, row, Tol);
+  GV_CANARY("h_covmat_cholDec_row end");
 }
 //@ end
